@@ -661,19 +661,20 @@ def flex_layout(context, box, bottom_space, skip_stack, containing_block, page_i
                 if child.margin_bottom == 'auto':
                     margins += 1
         if margins:
-            free_space /= margins
+            # Auto margins only absorb positive free space.
+            auto_margin = max(0, free_space) / margins
             for index, child in line:
                 if main == 'width':
                     if child.margin_left == 'auto':
-                        child.margin_left = free_space
+                        child.margin_left = auto_margin
                     if child.margin_right == 'auto':
-                        child.margin_right = free_space
+                        child.margin_right = auto_margin
                 else:
                     if child.margin_top == 'auto':
-                        child.margin_top = free_space
+                        child.margin_top = auto_margin
                     if child.margin_bottom == 'auto':
-                        child.margin_bottom = free_space
-            free_space = 0
+                        child.margin_bottom = auto_margin
+            free_space = min(0, free_space)
 
         if box.style['direction'] == 'rtl' and main == 'width':
             free_space *= -1
